@@ -214,3 +214,43 @@ def _df_cases():
 
 
 contract('bycycle.plts.cyclepoints.plot_cyclepoints_df', cases=_df_cases(), raises={'ValueError': "fs < 0"}, modifies=['ax'])
+
+
+# ------------------------------------------------------------------------------------------------ plot_burst_detect_param
+PANEL_T = "call_arg('neurodsp.plts.plot_time_series', 'times')"
+PANEL_S = "call_arg('neurodsp.plts.plot_time_series', 'sigs')"
+
+def _param_cases():
+    from .features_burst import shape_frame_type
+    from .burst import FEATS
+    out = []
+    for centre in ('peak', 'trough'):
+        side = 'trough' if centre == 'peak' else 'peak'
+        for param in ('amp_fraction', 'period_consistency'):
+            cols = dict(shape_frame_type(centre)[1])
+            cols.update({f: XR for f in FEATS})
+            cols['is_burst'] = BOOL
+            out.append(dict(
+                label='%s-centred,%s,xlim=None,interp=True' % (centre, param),
+                params={'df_features': ('frame', cols), 'sig': ('arr', REAL), 'fs': REAL, 'burst_param': ('const', param),
+                        'thresh': REAL, 'xlim': 'none', 'interp': ('const', True), 'ax': 'opaque', 'kwargs': ('dict', {})},
+                requires=["fs > 0", "len(sig) >= 2",
+                          "forall(i, 0 <= i < len(df_features), 0 <= df_features['sample_%s'][i] and "
+                          "df_features['sample_%s'][i] < len(sig))" % (centre, centre),
+                          "forall(i, 0 <= i < len(df_features), 0 <= df_features['sample_last_%s'][i] and "
+                          "df_features['sample_last_%s'][i] < df_features['sample_next_%s'][i] and "
+                          "df_features['sample_next_%s'][i] < len(sig))" % (side, side, side, side)],
+                loops={2: dict(index='k', invariant=[])},
+                # C20: the panel shows the parameter's per-cycle values at the cycle centres (sample / fs), and the threshold
+                # line spans the displayed time axis at the given threshold
+                ensures=["result is None",
+                         "len({T}[0]) == len(df_features) and forall(i, 0 <= i < len(df_features), "
+                         "{T}[0][i] == df_features['sample_{c}'][i] / fs)".format(T=PANEL_T, c=centre),
+                         "len({S}[0]) == len(df_features) and forall(i, 0 <= i < len(df_features), "
+                         "same({S}[0][i], df_features['{p}'][i]))".format(S=PANEL_S, p=param),
+                         "{T}[1][0] == 0 and {T}[1][1] == (len(sig) - 1) / fs".format(T=PANEL_T),
+                         "{S}[1][0] == thresh and {S}[1][1] == thresh".format(S=PANEL_S)]))
+    return out
+
+
+contract('bycycle.plts.burst.plot_burst_detect_param', cases=_param_cases(), raises={'ValueError': "fs < 0"}, modifies=['ax'])
